@@ -511,7 +511,7 @@ def numbers_part(ctx):
                 triples.append((a, b, rng.choice([1.0, 1.0, 0.3])))
     # the witnesses of the _refuted theorems and of the known findings
     triples += [(1e308, 1.7e308, 1.0), (2 ** 53, 2 ** 53 + 1, 1.0), (5e-324, 1e-323, 5e-324), (10 ** 400, 1, 1.0), (1, 2, 0.0),
-                (2, 0.5, 1.0), (1e-320, 3e-320, 1e-300), (Decimal("9007199254740993"), 2 ** 53, 1.0)]
+                (2, 0.5, 1.0), (1e-320, 3e-320, 1e-300), (Decimal("9007199254740993"), 2 ** 53, 1.0), (10 ** 20, 10 ** 20 + 1, 1.0)]
     nextra = 12000 if ctx.thorough else 700
     for _ in range(nextra):
         a = rng.choice(grid) if rng.random() < 0.5 else rand_double(rng)
@@ -817,6 +817,31 @@ def gen_pairs(ctx):
         if rng.random() < 0.3 and new:
             new.append(copy.deepcopy(rng.choice(new)))
         out.append((base, new, "shuffled_containers"))
+    # same-type containers that are == for Python but differ in the numeric TYPE of some leaf (1 vs 1.0 vs True):
+    # the default diff reports type_changes below dict values / nested containers, so the distance must be positive
+    retype = {0: [0.0, False], 1: [1.0, True], 2: [2.0], 3: [3.0], 10: [10.0], -1: [-1.0]}
+
+    def numeric_positions(v):
+        return [q for q in values.positions(v) if q and type(values.get_at(v, q)) is int and values.get_at(v, q) in retype]
+    hand_eq = [({"k": {"n": 10}}, {"k": {"n": 10.0}}), ({"a": 1}, {"a": True}), ([{"a": 1, "b": [2, 3]}], [{"a": 1.0, "b": [2, 3]}]),
+               ({"a": (1, 2)}, {"a": (1, 2.0)}), ([[1, "x"], {"k": 0}], [[1, "x"], {"k": False}]), ({"a": {"b": {"c": 3}}}, {"a": {"b": {"c": 3.0}}})]
+    for a, b in hand_eq:
+        out.append((a, b, "numeric_type_only"))
+        out.append((b, a, "numeric_type_only"))
+    for _ in range(800 if ctx.thorough else 70):
+        v = values.gen_value(rng, depth=rng.choice([2, 3]), width=3, kinds="DLDT", keygen=lambda r: r.choice(["a", "b", "k1", "k2", 5, None]))
+        if not isinstance(v, (dict, list, tuple)):
+            v = {"k": v, "n": rng.choice([0, 1, 2, 10])}
+        if isinstance(v, dict):
+            v = dict(v)
+            v.setdefault("n", rng.choice([0, 1, 2, 10]))
+        pos = numeric_positions(v)
+        if not pos:
+            continue
+        w = copy.deepcopy(v)
+        for q in rng.sample(pos, min(len(pos), rng.randint(1, 2))):
+            w = values.set_at(w, q, rng.choice(retype[values.get_at(v, q)]))
+        out.append((v, w, "numeric_type_only"))
     atoms = [None, True, False, 0, 1, -1, 2.5, 0.5, "", "a", b"", b"a", Decimal("1"), D(2020, 1, 1), DT(2020, 1, 1), TD(1), T(1), [], {}, (), set(), [None], [""], {"a": None}]
     for a in atoms:
         for b in atoms:
@@ -1047,6 +1072,47 @@ def rough_part(ctx):
 
 
 # ---------------------------------------------------------------------------
+# (h) outside the model, oracle only: use_log_scale, complex numbers, group_by
+# ---------------------------------------------------------------------------
+
+def check_log_result(ctx, a, b, mx, res):
+    case = {"kind": "numbers_log", "a": repr(a), "b": repr(b), "max_": repr(mx)}
+    if res[0] == "exc":
+        case["exception"] = type(res[1]).__name__
+        ctx.fail(case, "_get_numbers_distance(%r, %r, max_=%r, use_log_scale=True) raises %r" % (a, b, mx, res[1]))
+        return
+    r = res[1]
+    case["result"] = repr(r)
+    if isinstance(r, bool) or not isinstance(r, (int, float)) or (isinstance(r, float) and math.isnan(r)) or not (0 <= r <= mx):
+        ctx.fail(case, "_get_numbers_distance(%r, %r, max_=%r, use_log_scale=True) = %r is outside [0, max_]" % (a, b, mx, r))
+    elif (r == 0) != (a == b):
+        ctx.fail(case, "_get_numbers_distance(%r, %r, max_=%r, use_log_scale=True) = %r: zero exactly for equal values fails" % (a, b, mx, r))
+
+
+def extras_part(ctx):
+    from deepdiff.distance import _get_numbers_distance
+    grid = [0, 1, -1, 2, 3, 1000, -1000, 0.5, 1.5, 1e6, True, Decimal("3")]
+    for a in grid:
+        for b in grid:
+            for mx in (1.0, 0.3):
+                check_log_result(ctx, a, b, mx, call(lambda: _get_numbers_distance(a, b, mx, use_log_scale=True)))
+                ctx.seen(("log", repr(a), repr(b), mx), nontrivial=a != b)
+            if ctx.thorough or (a, b) in ((1, 1000), (1, 2), (2, 3), (0, 1), (1, 1), (1.5, 1.5), (1000, -1000), (0.5, 1.5)):
+                oracle_pair(ctx, a, b, {"use_log_scale": True}, "log_scale")
+                ctx.seen(("log_dd", repr(a), repr(b)), nontrivial=a != b)
+    ctx.count("extras:log_scale_pairs", len(grid) ** 2 * 2)
+    for a, b in [(1 + 2j, 2), (2j, 2j), (2j, 1 + 2j), (3, 1j)]:
+        check_number_result(ctx, "_get_numbers_distance", a, b, 1.0, call(_get_numbers_distance, a, b, 1.0), a == b)
+        oracle_pair(ctx, a, b, {}, "complex")
+        ctx.seen(("complex", repr(a), repr(b)), nontrivial=a != b)
+    ctx.count("extras:complex_pairs", 4)
+    for a, b in [([{"id": 1, "v": 1}], [{"id": 1, "v": 2}]), ([{"id": 1, "v": 1}, {"id": 2, "v": [1]}], [{"id": 1, "v": 1}, {"id": 2, "v": [2]}])]:
+        oracle_pair(ctx, a, b, {"group_by": "id"}, "group_by")
+        ctx.seen(("group_by", repr(a), repr(b)), nontrivial=True)
+    ctx.count("extras:group_by_pairs", 2)
+
+
+# ---------------------------------------------------------------------------
 # known findings: narrow matchers
 # ---------------------------------------------------------------------------
 
@@ -1270,6 +1336,36 @@ def m_opcodes_hide_operations(case):
     return ilen({k: v for k, v in delta.items() if not k.startswith("_")}) == 0
 
 
+def m_log_scale_unclamped(case):
+    """use_log_scale=True: the logarithmic distance is returned as it is, not clamped to max_"""
+    if case.get("kind") == "numbers_log":
+        if "exception" in case:
+            return False
+        r, mx = _ev(case["result"]), _ev(case["max_"])
+        return isinstance(r, float) and r > mx
+    if case.get("kind") == "deep_distance" and case.get("config", {}).get("use_log_scale") and "exception" not in case:
+        t1, t2 = _ev(case["t1"]), _ev(case["t2"])
+        dist = _ev(case.get("deep_distance", "None"))
+        num = (bool, int, float, Decimal)
+        return isinstance(t1, num) and isinstance(t2, num) and dist is not None and dist > 1
+    return False
+
+
+def m_complex(case):
+    if case.get("exception") != "TypeError":
+        return False
+    if case.get("kind") == "numbers":
+        return any(isinstance(_ev(case[k]), complex) for k in ("a", "b"))
+    if case.get("kind") == "deep_distance":
+        return any(isinstance(_ev(case[k]), complex) for k in ("t1", "t2"))
+    return False
+
+
+def m_group_by(case):
+    return case.get("kind") == "deep_distance" and case.get("exception") == "ValueError" and \
+        case.get("config", {}).get("group_by") is not None
+
+
 def m_item_length_crash(case):
     if case.get("kind") != "deep_distance" or case.get("exception") != "AttributeError":
         return False
@@ -1311,6 +1407,9 @@ MATCHERS = {
     "C19-K22-numpy-zero": m_numpy_zero,
     "C19-K23-zero-for-equal-numbers-of-different-type": m_equal_numbers_of_different_type,
     "C19-K24-opcodes-hide-operations": m_opcodes_hide_operations,
+    "C19-K25-log-scale-unclamped": m_log_scale_unclamped,
+    "C19-K26-complex-type-error": m_complex,
+    "C19-K27-group-by-value-error": m_group_by,
 }
 
 
@@ -1325,7 +1424,12 @@ def witnesses(ctx):
         ("C19_rough_range_refuted", lambda: DeepDiff(1, "", get_deep_distance=True).get("deep_distance") == 1.5),
         ("C19_rough_range_refuted (nested)", lambda: DeepDiff([None, None, None], ["", "", ""], get_deep_distance=True).get("deep_distance") == 1.125),
         ("C19_numbers_zero_iff_refuted (overflow)", lambda: _get_numbers_distance(1e308, 1.7e308, 1) == 0),
-        ("C19_numbers_zero_iff_refuted (float collapse)", lambda: _get_numbers_distance(2 ** 53, 2 ** 53 + 1, 1) == 0),
+        ("C19_numbers_zero_iff_refuted (float collapse)", lambda: _get_numbers_distance(2 ** 53, 2 ** 53 + 1, 1) == 0
+         and _get_numbers_distance(10 ** 20, 10 ** 20 + 1, 1) == 0),
+        ("K25 (log scale not clamped)", lambda: DeepDiff(1, 1000, use_log_scale=True, get_deep_distance=True).get("deep_distance") > 1),
+        ("K26 (complex)", lambda: isinstance(call(_get_numbers_distance, 1 + 2j, 2, 1)[1], TypeError)),
+        ("K27 (group_by)", lambda: isinstance(call(lambda: DeepDiff([{"id": 1, "v": 1}], [{"id": 1, "v": 2}], group_by="id",
+                                                                  get_deep_distance=True))[1], ValueError)),
         ("C19_numbers_total_refuted (OverflowError)", lambda: isinstance(call(_get_numbers_distance, 10 ** 400, 1, 1)[1], OverflowError)),
         ("C19_numbers_total_refuted (ZeroDivisionError)", lambda: isinstance(call(_get_numbers_distance, 1, 2, 0.0)[1], ZeroDivisionError)),
         ("C19_positive_if_nonempty_refuted", lambda: DeepDiff([1], [1, None], get_deep_distance=True).get("deep_distance", 0) == 0
@@ -1362,7 +1466,7 @@ def run(ctx):
     ctx.coq_cases = deferred
     t = {}
     try:
-        for f in (numbers_part, scalars_part, numpy_part, rough_part, witnesses):
+        for f in (numbers_part, scalars_part, numpy_part, rough_part, extras_part, witnesses):
             t0 = time.time()
             f(ctx)
             t[f.__name__] = round(time.time() - t0, 1)
@@ -1393,6 +1497,13 @@ def replay(ctx, data):
         d = oracle_pair(ctx, t1, t2, cfg, "replay")
         ctx.evaluations += 1
         print("replay: DeepDiff(%r, %r, get_deep_distance=True, **%r) -> %r" % (t1, t2, cfg, None if d is None else d.get("deep_distance")))
+    elif kind == "numbers_log":
+        from deepdiff.distance import _get_numbers_distance
+        a, b, mx = _ev(case["a"]), _ev(case["b"]), _ev(case["max_"])
+        res = call(lambda: _get_numbers_distance(a, b, mx, use_log_scale=True))
+        print("replay: _get_numbers_distance(%r, %r, %r, use_log_scale=True) -> %r" % (a, b, mx, res[1]))
+        ctx.evaluations += 1
+        check_log_result(ctx, a, b, mx, res)
     elif kind == "numpy":
         import numpy as np
         from deepdiff.distance import _get_numpy_array_distance
